@@ -135,8 +135,18 @@ def handle (op : String) (a : Json) : Except String Json := do
     | "mean_average_precision_2d" =>
       let rows ← (← fldArr a "items").mapM getMLItem
       return valJ (ratJ (meanAveragePrecisionML C rows))
+    | "jaccard_2d" =>
+      return valJ (ratJ (jaccardSamples (← (← fldArr a "items").mapM getMLItem)))
+    | "average_precision_2d" =>
+      return valJ (ratJ (microAP (← (← fldArr a "items").mapM getMLItem)))
+    | "multilabel_example_score_2d" =>
+      -- a single example handed over as a 1 x C matrix
+      match ← (← fldArr a "items").mapM getMLItem with
+      | [it] => return valJ (ratJ (mlScore it))
+      | _ => .error "multilabel_example_score_2d: one row expected"
     | "average_precision" => return valJ (ratJ (exampleAP (← getMLItem (← fld a "item"))))
     | "jaccard" => return valJ (ratJ (jaccard (← getMLItem (← fld a "item"))))
+    | "multilabel_example_score" => return valJ (ratJ (mlScore (← getMLItem (← fld a "item"))))
     | _ => .error s!"C09: unknown metric function {fn}"
   | "aoef_metrics" =>
     -- the label-keyed mapping an AOEF document stores, read back as a feature list
